@@ -221,6 +221,21 @@ def explore(ctx):
                     ctx.violation('give-up-skipped', f'{ps["executed"]} candidates were started although every one ended in a helper error '
                                   f'(shaddap={silent}, give-up limit {g}, N={nn}: at most {g + nn + 1})', {'scenario': sc, 'kind': 'shim'})
                 each.append((driver.coq_scenario(sc, o.perm), o.out, sc))
+    # ... and a silenced helper error in the middle of a sweep does not cost the candidates after it
+    for nn in (1, 2, 3):
+        for ops in ([('err',), ('delch', 'a'), ('err',), ('delch', 'b')], [('delch', 'c'), ('err',), ('delch', 'a')], [('err',), ('err',), ('delch', 'b')]):
+            for aos in (0, 1):
+                sc = {'files': [('f0.c', 'abcab')], 'rules': [([], 0)],
+                      'passes': [{'key': 1, 'ops': ops, 'aos': aos, 'maxt': None, 'newfix': None}],
+                      'cfg': {'N': nn, 'silent': True, 'no_cache': True}, 'sched': [rnd.randint(0, 7) for _ in range(30)]}
+                o = driver.run_scenario(sc, ctx.tmp)
+                ctx.evaluations += 1
+                ctx.count('silenced-helper-error-among-candidates')
+                if o.diverged:
+                    continue
+                oracle_commits(ctx, sc, o)
+                oracle_nonblocking(ctx, sc, o)
+                each.append((driver.coq_scenario(sc, o.perm), o.out, sc))
     ctx.sample({'scenario': {k: each[1][2][k] for k in ('files', 'passes', 'rules', 'cfg', 'sched')}, 'impl_output': each[1][1][:40]})
     correspond(ctx, 'c09', each)
     for tag, sc in (REAL_SCENARIOS if not ctx.quick() else REAL_SCENARIOS[:3]):
